@@ -418,6 +418,21 @@ def work_cxx(job: Tuple[Any, bool]) -> Dict[str, Any]:
                     res["violations"].append({"what": f"{res['case']}{tag}: gcc rejects the generated C: {err.strip()[:220]}", "payload": {"kind": "schema", "files": case.proto.files(), "main": case.proto.fname(), "lang": "c", "optimize": opt},
                                               "confirmed": True, "info": {"kind": "cxx", "key": "c-rejected"}})
                     return res
+            from ..schema import Const as _SConst
+
+            sconsts = [d for d in case.proto.defs if isinstance(d, _SConst) and isinstance(d.value, str)]
+            if sconsts and not opt:
+                # a macro is only diagnosed where it is used: a unit that uses every string constant, as C and as C++
+                tu = sc.path("bpv_strings.c")
+                open(tu, "w").write(f'#include "{b.main}_bp.h"\n' + "".join(f"const char *bpv_s{i} = {getattr(b, 'name_prefix', '').upper()}{d.name};\n" for i, d in enumerate(sconsts)))
+                for lang_flags, who in ((["-std=c99"], "gcc"), (["-x", "c++"], "g++")):
+                    res["obligations"] += 1
+                    g = run(["gcc", "-fsyntax-only"] + lang_flags + ["-I", b.gen, "-I", os.path.join(_REPO, "lib", "c"), tu], timeout=120)
+                    if g.returncode != 0:
+                        err = next((l for l in g.stderr.split("\n") if "error" in l), g.stderr[-200:])
+                        res["violations"].append({"what": f"{res['case']}: {who} rejects a unit that uses the generated string constants: {err.strip()[:220]}", "payload": {"kind": "schema", "files": case.proto.files(), "main": case.proto.fname(), "lang": "c"},
+                                                  "confirmed": True, "info": {"kind": "cxx", "key": "c-rejected"}})
+                        return res
             kc = b.layout_consts(case.messages, cxx=False)
             try:
                 kx = b.layout_consts(case.messages, cxx=True)
